@@ -5,14 +5,24 @@
 (* without deviation; the law MeetsDemand is checked on every history), and   *)
 (* with the outcome of the as-coded model with the deviation EnvKeptOnAbort   *)
 (* where it differs (used by the harness only to NAME an observed failure).   *)
+(* Round 7: a second family of initial states, the NEST CASES (nc): top-level  *)
+(* invocations, then ONE top-level invocation of the driver module running a   *)
+(* program of nested invocations / own reads and writes, then top-level        *)
+(* invocations; printed as NCASE with the demanded outcome of every step, the  *)
+(* as-is outcome (NestedInvokeSharesLoadedModules) and the outcome of the      *)
+(* model in which a nested invocation runs in its caller's environment.        *)
 EXTENDS Naturals, Sequences, TLC, Json
 CONSTANT Tier
 NoDev == {}
-DevKept == {"EnvKeptOnAbort"}
+DevKept == {"EnvKeptOnAbort", "NestedInvokeSharesLoadedModules"}    \* on top of the code as it is
 Ideal == INSTANCE ContextInvoke WITH Dev <- NoDev
 Kept == INSTANCE ContextInvoke WITH Dev <- DevKept
-DevAsIs == {"LoadDataTableMutableWithinPage"}
+DevAsIs == {"LoadDataTableMutableWithinPage", "NestedInvokeSharesLoadedModules"}
 AsIs == INSTANCE ContextInvoke WITH Dev <- DevAsIs
+DevShared == DevAsIs \cup {"NestedSharesCallerEnv"}
+Shared == INSTANCE ContextInvoke WITH Dev <- DevShared
+DevSharedOnly == {"NestedSharesCallerEnv"}
+SharedOnly == INSTANCE ContextInvoke WITH Dev <- DevSharedOnly
 
 P == Ideal!Probes
 LD == Ideal!LoadData
@@ -49,17 +59,72 @@ Hists(t) ==
     \cup { <<"timeout">> \o rb : rb \in ReadBack }
     \cup { <<p, "timeout", q>> : p \in {"bump", "gset"}, q \in {"bump", "reqbump", "rget"} }
 
-VARIABLES hist, done
-Init == hist \in Hists(Tier) /\ done = FALSE
-Next == done = FALSE /\ done' = TRUE /\ UNCHANGED hist
-Spec == Init /\ [][Next]_<<hist, done>>
-Laws == Ideal!MeetsDemand(hist)
-Emit == \E o \in {Ideal!Outcomes(hist)} : \E kp \in {Kept!Outcomes(hist)} : \E ai \in {AsIs!Outcomes(hist)} :
+\* ---- nest cases ----
+Vias == {"P", "A", "T"}         \* frame:preprocess / argument expanded when read / frame:expandTemplate
+NW == Ideal!NestWriters
+NR == Ideal!NestReaders
+NK == Ideal!NestKinds
+OwnW == {"Wg", "Ws", "Wt"}
+WriterOf(c) == CASE c = "Wg" -> "gset" [] c = "Ws" -> "sset" [] c = "Wt" -> "tset"
+St(v, k) == [via |-> v, k |-> k, sub |-> <<>>]
+Own(k) == [via |-> "own", k |-> k, sub |-> <<>>]
+Sub(v, steps) == [via |-> v, k |-> "prog", sub |-> steps]
+\* the steps of a sub-program sit in text handed to frame:preprocess / expandTemplate by the outer driver: an
+\* argument that is itself an #invoke can only be written there when the sub-program is reached through "A"
+InnerVias(v) == IF v = "A" THEN Vias ELSE {"P", "T"}
+NC(pre, prog, post) == [pre |-> pre, prog |-> prog, post |-> post]
+NoCase == NC(<<>>, <<>>, <<>>)
+Progs(t) ==
+       { <<St(v, k)>> : v \in Vias, k \in NK } \cup { <<Own(k)>> : k \in OwnW \cup {"O"} } \cup { <<Own(c), Own("O")>> : c \in OwnW }
+  \* nested writer, then a nested reader, then the caller's own view
+  \cup { <<St(v1, w), St(v2, r), Own("O")>> : v1 \in Vias, v2 \in Vias, w \in NW, r \in NR }
+  \* two nested writers (the second reports what it found)
+  \cup { <<St(v1, w1), St(v2, w2), Own("O")>> : v1 \in Vias, v2 \in Vias, w1 \in NW, w2 \in NW }
+  \* the caller sets a cell first: the nested invocation starts from a copy of the caller's environment
+  \cup { <<Own(c), St(v, r), Own("O")>> : c \in OwnW, v \in Vias, r \in NR }
+  \cup { <<Own(c), St(v1, WriterOf(c)), St(v2, r), Own("O")>> : c \in OwnW, v1 \in Vias, v2 \in Vias, r \in NR }
+  \* two levels: a nested driver whose own nested invocation / own write must stay inside it
+  \cup { <<Sub(v1, <<St(v2, w), Own("O")>>), St(v3, "view"), Own("O")>> :
+            v1 \in Vias, v2 \in (IF t = "quick" THEN {"P"} ELSE Vias), v3 \in Vias, w \in NW }
+  \cup { <<Sub(v1, <<Own(c), Own("O")>>), St(v2, "view"), Own("O")>> : v1 \in Vias, v2 \in (IF t = "quick" THEN {"P"} ELSE Vias), c \in OwnW }
+  \cup { <<Own(c), Sub(v1, <<St(v2, "view"), Own("O")>>)>> : v1 \in Vias, v2 \in (IF t = "quick" THEN {"T"} ELSE Vias), c \in OwnW }
+  \cup { <<Sub(v1, <<Own(c)>>), Sub(v2, <<Own("O")>>), Own("O")>> : v1 \in Vias, v2 \in Vias, c \in OwnW }
+  \cup (IF t = "quick" THEN {} ELSE
+         { <<St(v1, w1), St(v2, w2), St(v3, r), Own("O")>> : v1 \in Vias, v2 \in Vias, v3 \in Vias, w1 \in NW, w2 \in NW, r \in NR }
+    \cup { <<Own(c), St(v1, w), St(v2, r), Own("O")>> : c \in OwnW, v1 \in Vias, v2 \in Vias, w \in NW, r \in NR }
+    \cup { <<Sub(v1, <<St(v2, w)>>), Sub(v3, <<St(v4, r), Own("O")>>), Own("O")>> :
+              v1 \in Vias, v2 \in {"P", "T"}, v3 \in Vias, v4 \in {"P", "T"}, w \in NW, r \in NR })
+WellFormed(prog) == \A i \in 1..Len(prog) : prog[i].k = "prog" => \A j \in 1..Len(prog[i].sub) :
+                        prog[i].sub[j].via \in InnerVias(prog[i].via) \cup {"own"}
+NestCases(t) ==
+       { NC(<<>>, p, <<>>) : p \in { q \in Progs(t) : WellFormed(q) } }
+  \* a top-level writer before: the reset of the top-level invocation of the driver also covers what is nested in it
+  \cup { NC(<<a>>, <<St(v, r), Own("O")>>, <<>>) : a \in {"gset", "sset", "bump"}, v \in Vias, r \in {"gget", "sget", "view", "peek"} }
+  \* a top-level reader after
+  \cup { NC(<<>>, <<St(v, w)>>, <<b>>) : v \in Vias, w \in NW, b \in {"gget", "rget", "sget", "peek", "reqbump"} }
+  \* after an invocation that ended abnormally
+  \cup { NC(<<d>>, <<St(v, w), St("P", "view"), Own("O")>>, <<>>) : d \in {"nomod", "err", "n_nomod"}, v \in Vias, w \in NW }
+
+VARIABLES hist, nc, done
+Init == /\ done = FALSE
+        /\ \/ hist \in Hists(Tier) /\ nc = NoCase
+           \/ hist = <<>> /\ nc \in NestCases(Tier)
+Next == done = FALSE /\ done' = TRUE /\ UNCHANGED <<hist, nc>>
+Spec == Init /\ [][Next]_<<hist, nc, done>>
+Laws == Ideal!MeetsDemand(hist) /\ Ideal!CaseMeetsDemand(nc)
+EmitHist == \E o \in {Ideal!Outcomes(hist)} : \E kp \in {Kept!Outcomes(hist)} : \E ai \in {AsIs!Outcomes(hist)} :
           PrintT(<<"CASE", ToJson([hist |-> hist, out |-> o, kept |-> IF kp = o THEN <<>> ELSE kp,
                                    asis |-> IF ai = o THEN <<>> ELSE ai])>>)
+EmitNest == \E o \in {Ideal!CaseOutcomes(nc)} : \E ai \in {AsIs!CaseOutcomes(nc)} : \E sh \in {Shared!CaseOutcomes(nc)} :
+          PrintT(<<"NCASE", ToJson([nest |-> nc, out |-> o, asis |-> ai, shared |-> sh])>>)
+Emit == IF hist = <<>> THEN EmitNest ELSE EmitHist
 GenInv == done \/ (Laws /\ Emit)
 \* Demo: with the deviation some history violates the demand (TLC finds it)
 DemoKept == Kept!MeetsDemand(hist)
 \* Demo: with the per-page lifetime of the writable loadData tables some history violates the demand
 DemoLoadData == AsIs!MeetsDemand(hist)
+\* Demo: a nested invocation that runs in its caller's environment violates the demand on some nest case
+DemoNestShared == SharedOnly!CaseMeetsDemand(nc)
+\* Demo: with package.loaded shared by the nested invocations of one top-level call (as-is) some nest case violates it
+DemoNestModules == AsIs!CaseMeetsDemand(nc)
 =============================================================================
